@@ -213,7 +213,14 @@ func (p C10) Run(c *sim.Ctx, t *sim.Tape) sim.RunResult {
 		_ = twin.Chdir("/d")
 	}
 
-	bp, err := basepathfs.NewWithErr(base, "/a")
+	// B as the caller may write it: the wrapper has to work whatever the spelling.
+	spelling := "/a"
+	if t.Chance(300) {
+		spelling = []string{"/a/", "/a/.", "//a", "/ab/../a", "/a/d/..", "/a//", "/./a"}[t.Int(7)]
+		c.Count("base_path_not_clean", 1)
+	}
+
+	bp, err := basepathfs.NewWithErr(base, spelling)
 
 	if err != nil {
 		return sim.RunResult{Harness: "cannot create BasePathFS: " + err.Error()}
@@ -221,7 +228,7 @@ func (p C10) Run(c *sim.Ctx, t *sim.Tape) sim.RunResult {
 
 	be := &fsx.Env{VFS: bp, ErrPaths: true}
 	te := &fsx.Env{VFS: twin, ErrPaths: true}
-	tr := seqTrace{FS: "basepath/" + kind}
+	tr := seqTrace{FS: "basepath/" + kind + " B=" + spelling}
 	res := sim.RunResult{}
 	okMut, tricky := 0, 0
 	nameAtOpen := map[int]string{}
@@ -250,8 +257,8 @@ func (p C10) Run(c *sim.Ctx, t *sim.Tape) sim.RunResult {
 		o := bpOp(t, fmt.Sprintf("<%d>", i))
 
 		if o.K == "Rename" {
-			if a1, _ := bp.Abs(o.P); a1 != "" {
-				if a2, _ := bp.Abs(o.Q); a1 == a2 {
+			if a1, _ := twin.Abs(o.P); a1 != "" {
+				if a2, _ := twin.Abs(o.Q); a1 == a2 {
 					// os.Rename compares its two arguments as strings before anything else (a directory renamed onto
 					// "itself" fails only when both strings are equal): BasePathFS cleans the strings, the twin does not.
 					o = fsx.Op{K: "Stat", P: o.P}
@@ -314,7 +321,7 @@ func (p C10) Run(c *sim.Ctx, t *sim.Tape) sim.RunResult {
 
 		if o.K == "FName" {
 			if got.Err == "ok" && want.Err == "ok" {
-				if ga := bp.Clean(got.Data); ga != nameAtOpen[o.H] {
+				if ga := twin.Clean(got.Data); ga != nameAtOpen[o.H] {
 					return fail(i, o, "name-differs", "File.Name is not the virtual path the file was opened with",
 						fmt.Sprintf("BasePathFS %q, twin %q (absolute: %q)", got.Data, want.Data, nameAtOpen[o.H]))
 				}
@@ -394,11 +401,11 @@ func bpNormalise(bp, twin avfs.VFS, o fsx.Op, got, want fsx.Result) (g, w string
 		return r.Err + " " + data, paths
 	}
 
-	g, gp := norm(bp, got)
+	g, gp := norm(twin, got) // lexical helpers of the twin: the harness never leans on the wrapper under test
 	w, _ = norm(twin, want)
 
 	if o.K == "Rename" && got.Err != "ok" && want.Err != "ok" {
-		if a, _ := bp.Abs(o.P); a == "/" {
+		if a, _ := twin.Abs(o.P); a == "/" {
 			// moving the root fails on both sides; which of two applicable errors is reported first is not compared.
 			return "refused", "refused", nil
 		}
@@ -429,7 +436,7 @@ func bpNormalise(bp, twin avfs.VFS, o fsx.Op, got, want fsx.Result) (g, w string
 		return set(bp, got.Data), set(twin, want.Data), nil
 	}
 
-	if (o.K == "Stat" || o.K == "Lstat") && got.Err == "ok" && want.Err == "ok" && (bp.Clean(o.P) != o.P || !strings.HasPrefix(o.P, "/")) {
+	if (o.K == "Stat" || o.K == "Lstat") && got.Err == "ok" && want.Err == "ok" && (twin.Clean(o.P) != o.P || !strings.HasPrefix(o.P, "/")) {
 		// the reported name is the last element of the string given (as os.Stat does); BasePathFS hands a cleaned
 		// path to its base: for unclean paths only the attributes are compared (the root's own name is judged below).
 		if gf := strings.Fields(got.Data); len(gf) > 0 && gf[0] != "a" {
